@@ -340,6 +340,25 @@ example : (checkGlue [] false 3 "y.c1.evil.co.test.".toList ["ns1.victim.co.test
 example : (checkGlue [] false 2 "y.c1.evil.co.test.".toList ["ns1.victim.co.test.".toList]
     [⟨"ns1.victim.co.test.".toList, 1, [198, 51, 100, 6]⟩]).servers = [[198, 51, 100, 6]] := by decide
 
+/-- **The level is never below the depth of the zone being asked**, along any
+sequence of the descent's steps (seed from the delegation cache, follow a
+referral, take a cached delegation, minimisation steps upwards). This is the
+hypothesis `glue_inside_delegating_zone` needs; that these steps are the only
+writes to `rs.level` is the regenerated fact `shape_level_is_zone_depth`. -/
+theorem level_never_below_zone_depth (steps : List LevelStep) (d : Descent)
+    (h : d.zoneDepth ≤ d.level) :
+    (steps.foldl levelStep d).zoneDepth ≤ (steps.foldl levelStep d).level := by
+  induction steps generalizing d with
+  | nil => exact h
+  | cons st t ih =>
+    apply ih
+    cases st <;> simp [levelStep] <;> omega
+
+-- the step taken before /repo 97282c4 breaks it: a three-label zone reached from level 1 through a cache hit
+example : (([LevelStep.seed 1, LevelStep.cachedHit 3].foldl levelStepOld {}).level,
+    ([LevelStep.seed 1, LevelStep.cachedHit 3].foldl levelStepOld {}).zoneDepth) = (2, 3) := by decide
+example : ([LevelStep.seed 1, LevelStep.cachedHit 3, LevelStep.minimiseUp].foldl levelStep {}) = ⟨4, 3⟩ := by decide
+
 /-- Every server `checkGlueRR` hands to the resolver is the address of some
 accepted glue record (so `glue_in_bailiwick` applies to it). -/
 theorem glue_servers_are_accepted (locals : List IP) (ipv6 : Bool) (level : Nat) (qname : Str)
@@ -798,14 +817,18 @@ the delegation; `lookup` applies the same rule to what
 `Conn.Exchange` consults `QuestionMatches`; both cache write paths filter the
 answer before building the entry; `answer` filters `resp.Answer` to the asked
 zone in an unconditional top-level statement (guarded by `zone != ""` only)
-that precedes the splice of a DNAME target's separately resolved answer. -/
+that precedes the splice of a DNAME target's separately resolved answer; every
+write to `rs.level` is the label count of the zone now asked
+(`resolveWithCachedNameservers`, `processDelegation`) or an increment under a
+`minimized` condition. -/
 theorem guards_are_wired :
     SdnsVerif.Gen.C07.shape_delegation_guard_first = true ∧
     SdnsVerif.Gen.C07.shape_lookup_applies_rule = true ∧
     SdnsVerif.Gen.C07.shape_answer_clears_sections = true ∧
     SdnsVerif.Gen.C07.shape_exchange_checks_question = true ∧
     SdnsVerif.Gen.C07.shape_store_filters_before_entry = true ∧
-    SdnsVerif.Gen.C07.shape_answer_filters_before_splice = true := by decide
+    SdnsVerif.Gen.C07.shape_answer_filters_before_splice = true ∧
+    SdnsVerif.Gen.C07.shape_level_is_zone_depth = true := by decide
 
 /-- The compiled `usableAddr` rejects every loopback probe (127.0.0.1 in both
 spellings, the ends of 127/8, ::1) and every address of every local interface,
